@@ -156,16 +156,36 @@ func runPortfolio(script string, dir string, name string, timeout time.Duration,
 			members = append(members, member{solvers[0], slicedFile, seed, true, solvers[0].name + "/sliced"})
 			members = append(members, member{solvers[2], slicedFile, seed, true, solvers[2].name + "/sliced"})
 		}
+		// strict slice (slice.go): only hypotheses about the discriminating heap components of the goal
+		if st, ok := sliceScriptStrict(script); ok {
+			sfile := filepath.Join(dir, name+".strict.smt2")
+			if err := os.WriteFile(sfile, []byte(st), 0o644); err == nil {
+				members = append(members, member{solvers[0], sfile, seed, true, solvers[0].name + "/strict"})
+				members = append(members, member{solvers[1], sfile, seed, true, solvers[1].name + "/strict"})
+			}
+		}
 	}
 	ch := make(chan r, len(members))
 	var wg sync.WaitGroup
-	for _, m := range members {
+	for mi, m := range members {
 		wg.Add(1)
-		go func(m member) {
+		go func(mi int, m member) {
 			s := m.s
 			file := m.file
 			seed := m.seed
 			defer wg.Done()
+			// staged start: the two z3 versions on the full script first; the other members (cvc5, second seed, sliced
+			// scripts) only if no answer arrived within a short delay — most obligations are decided well before, and
+			// the machine is not flooded with solver processes that would be cancelled at once
+			_ = mi
+			if !all && m.label != "z3-new" && m.label != "z3" {
+				select {
+				case <-ctx.Done():
+					ch <- r{m.label, "unknown", "", 0}
+					return
+				case <-time.After(1500 * time.Millisecond):
+				}
+			}
 			t0 := time.Now()
 			cctx, ccancel := context.WithTimeout(ctx, timeout+2*time.Second)
 			defer ccancel()
@@ -194,7 +214,7 @@ func runPortfolio(script string, dir string, name string, timeout time.Duration,
 				txt = ""
 			}
 			ch <- r{m.label, res, txt, time.Since(t0).Seconds()}
-		}(m)
+		}(mi, m)
 	}
 	go func() { wg.Wait(); close(ch) }()
 	out := solveOut{result: "unknown", perSolver: map[string]float64{}, both: map[string]string{}}
